@@ -13,6 +13,9 @@ C13  Relationship matrices match their definitions and algebraic laws
 """
 import ast
 
+from sa.ctorflow import wire
+
+
 from sa.astutil import dump, where, kwargs_of, walk_no_nested, field_of, is_guard
 from sa.model import body_nodoc
 from sa.vn import VN, Poly, VNUnknown, comparable
@@ -400,3 +403,4 @@ def run(prog, rep, tier):
     check_estimators(prog, rep)
     check_kinship(prog, rep)
     check_labels(prog, rep)
+    wire(prog, rep, "C13", 5, 105)
